@@ -7,7 +7,7 @@ VERSION := $(shell sed -n "s/.*version *: *'\([0-9.]*\)'.*/\1/p" $(REPO)/meson.b
 
 CC      := clang
 CXX     := clang++
-SAN     := -fsanitize=address,undefined -fno-sanitize=nonnull-attribute -fno-sanitize-recover=undefined
+SAN     := -fsanitize=address,undefined -fno-sanitize-recover=undefined
 DEFS    := -DZCHUNK_ZSTD -DZCHUNK_OPENSSL -DZCHUNK_ZCHUNK_VERIF -D_GNU_SOURCE
 LIBSRC  := $(wildcard $(REPO)/src/lib/*.c) $(wildcard $(REPO)/src/lib/buzhash/*.c) $(wildcard $(REPO)/src/lib/comp/*.c) \
            $(wildcard $(REPO)/src/lib/comp/nocomp/*.c) $(wildcard $(REPO)/src/lib/comp/zstd/*.c) \
